@@ -6,6 +6,7 @@ mod c04;
 mod c08tcp;
 mod c09;
 mod c12;
+mod c14tcp;
 mod c15;
 mod c20;
 mod flow;
@@ -83,8 +84,9 @@ fn main() {
         }
         "C14" => {
             let mut rep = Report::new("C14", tier, "model_checking", "sim");
-            rep.rule = "stateless enumeration: tick x global (min,max) x per-link / global overrides (fixed, link max, global max; before the run or mid-run; by name or regex) x burst size / in-step offset, with the latency variate of every message answered by the explorer from {0, 1/4, 1/2, 1, 4} through the cfg-guarded hook (the clamp is exercised by 4); sender's sim_elapsed is carried in the payload, receiver logs its own at receipt".into();
+            rep.rule = "stateless enumeration: tick x global (min,max) x per-link / global overrides (fixed, link max, global max; before the run or mid-run; by name or regex) x burst size / in-step offset, with the latency variate of every message answered by the explorer from {0, 1/4, 1/2, 1, 4} through the cfg-guarded hook (the clamp is exercised by 4); sender's sim_elapsed is carried in the payload, receiver logs its own at receipt; second part: 12-byte frames on an established TCP connection (either side writing), per-segment variates deviation-bounded, in-order arrival and a delay between own minimum - tick and the latest `send + max + tick` of the frames up to it".into();
             run_dfs(&mut rep, "latency-window", tier.pick(1, 2), wall, move |ch| flow::c14_scenario(ch, thorough));
+            run_dfs(&mut rep, "latency-window-tcp-frames", tier.pick(2, 4), wall, move |ch| c14tcp::scenario(ch, thorough));
             rep.finish();
         }
         "C09" => {
@@ -266,7 +268,13 @@ fn replay(path: &str) {
                 flow::c03_scenario(&mut ch, thorough)
             }
         }
-        "C14" => flow::c14_scenario(&mut ch, thorough),
+        "C14" => {
+            if v["scenario"].as_str().map(|s| s.starts_with("c14-tcp")).unwrap_or(false) {
+                c14tcp::scenario(&mut ch, thorough)
+            } else {
+                flow::c14_scenario(&mut ch, thorough)
+            }
+        }
         "C12" => {
             if v["scenario"].as_str().map(|s| s.starts_with("c12-partition")).unwrap_or(false) {
                 c12::partition_scenario(&mut ch, thorough)
